@@ -94,6 +94,10 @@ MUTANTS = [
      'fxpmath/functions.py',
      "    # propagate inaccuracy from arguments\n    if x.status['inaccuracy'] or y.status['inaccuracy']:\n        z.status['inaccuracy'] = True\n\n    return z   ",
      "    # propagate inaccuracy from arguments\n    if x.status['inaccuracy'] and out is None:\n        z.status = x.status\n    elif y.status['inaccuracy']:\n        z.status['inaccuracy'] = True\n\n    return z   "),
+    ('M31', 'C04', 'narrow integer list elements are not widened before scaling (original defect of fix 55d0631, float part kept)',
+     'fxpmath/objects.py',
+     "            if val.dtype.kind in 'iu' and val.dtype.itemsize < 8:\n                vdtype = int\n            # and narrow float elements would be compared with the format limits in their own\n            # precision, missing an overflow by one code\n            elif val.dtype.kind == 'f' and val.dtype.itemsize < 8:",
+     "            # and narrow float elements would be compared with the format limits in their own\n            # precision, missing an overflow by one code\n            if val.dtype.kind == 'f' and val.dtype.itemsize < 8:"),
     ('M28', 'C02', 'saturation of Python-integer (object) inputs clamps on the magnitude',
      'fxpmath/objects.py',
      "            if isinstance(new_val, np.ndarray) and new_val.dtype == object:\n                val = np.clip(new_val, val_min, val_max)",
@@ -153,6 +157,7 @@ def main():
             shutil.rmtree(root)
         # reverse of every fix: commit
         log = run(['git', '-C', REPO, 'log', '--format=%h %s', '--reverse']).stdout.decode().splitlines()
+        known = json.load(open(os.path.join(HERE, 'known_findings.json')))['findings']
         n = 0
         for line in log:
             h, subj = line.split(' ', 1)
@@ -162,8 +167,9 @@ def main():
             d = run(['git', '-C', REPO, 'diff', h, h + '^', '--', 'fxpmath']).stdout.decode()
             name = 'R%02d-revert-%s.patch' % (n, h)
             open(os.path.join(OUT, name), 'w').write(d)
-            index.append({'id': 'R%02d' % n, 'patch': name, 'property': None, 'what': 'reverse of ' + line,
-                          'kind': 'revert-of-fix', 'existing_tests_pass': True})
+            props = sorted(set(k['property'] for k in known if k.get('commit') == h))
+            index.append({'id': 'R%02d' % n, 'patch': name, 'property': None, 'properties': props,
+                          'what': 'reverse of ' + line, 'kind': 'revert-of-fix', 'existing_tests_pass': True})
             print('R%02d %s' % (n, line))
     finally:
         shutil.rmtree(base, ignore_errors=True)
